@@ -66,6 +66,13 @@ def gen_valid(rng, maxn):
                 d = -gl * Fraction(rng.randint(0, 7), 8)
             p = p + d
         xref.append(p)
+    if mode == "default" and rng.random() < 0.25:
+        # a reference that is wider than the series (the enclosing readings were kept): its outermost positions lie
+        # outside [x[0], x[-1]] and select the first / last sample whatever the strategy
+        if F[0] == 0 and strategy in ("lower", "closest"):
+            xref[0] = x[0] - rng.choice([Fraction(1, 2), 1, 3])
+        if F[-1] == n - 1 and strategy in ("higher", "closest"):
+            xref[-1] = x[-1] + rng.choice([Fraction(1, 2), 1, 3])
     if degenerate and rng.random() < 0.5 and len(xref) >= 2 and mode == "default":
         # two reference positions selecting the same sample
         j = rng.randrange(1, len(xref))
